@@ -1,6 +1,6 @@
 (* Properties_C16.v — C16: sliding-window statistics and ring buffers reflect exactly the last W items. *)
-From Coq Require Import ZArith List Bool Arith Reals Lia.
-From Romea Require Import Num NumR OnlineStatsModel OnlineStatsProofs StatsSem SrcTieC16.
+From Coq Require Import ZArith List Bool Arith Reals Lia Lra.
+From Romea Require Import Num NumR OnlineStatsModel OnlineStatsProofs StatsSem SrcTieC16 GridMapFloat OnlineStatsFloat.
 From Romea.gen Require Import SrcStats.
 Import ListNotations.
 
@@ -196,6 +196,54 @@ Theorem C16_source_tie_ring_history : forall (A : Type) cap (h : list (rop A)) k
 Proof. exact @ring_code_kth. Qed.
 Print Assumptions C16_source_tie_ring_history.
 
+(* ==== FLOATING POINT (IEEE-754 binary64, Flocq; coq/OnlineStatsFloat.v) ====
+   B64Ops (GridMapFloat.v) rounds to nearest-even after every + - * / and every integer->double conversion; rnd64 is that
+   rounding, u64 = 2^-53 the unit roundoff, eta64 = 2^-1075. *)
+
+(* multiplier_ = static_cast<int>(1 / averagePrecision) for a precision in [1e-6, 1] (lower bound 2/2000001, so that
+   the double nearest to 1e-6 — slightly below 10^-6 — is covered) *)
+Theorem C16_average_binary64_multiplier : forall p : R, (2 / 2000001 <= p <= 1)%R ->
+  (1 <= o_multiplier B64Ops p <= 1000000)%Z.
+Proof. exact multiplier_b64. Qed.
+Print Assumptions C16_average_binary64_multiplier.
+
+(* the truncated sample static_cast<long long>(value * multiplier_): bounded by 1e8 when |value * multiplier| is, and
+   within one unit plus one rounding of the product *)
+Theorem C16_average_binary64_truncated_sample : forall (m : Z) (v : R), (Z.abs m < 2 ^ 53)%Z ->
+  ((Rabs (v * IZR m) <= 100000000)%R -> (Z.abs (o_trunc B64Ops m v) <= 100000000)%Z) /\
+  (Rabs (IZR (o_trunc B64Ops m v) - v * IZR m) < 1 + u64 * Rabs (v * IZR m) + eta64)%R.
+Proof. exact trunc_b64_both. Qed.
+Print Assumptions C16_average_binary64_truncated_sample.
+
+(* NO DRIFT, in binary64: for every window 1..64, every multiplier 1..10^6 and every history of updates and resets with
+   truncated samples bounded by 1e8, sumOfData_, multiplier_, data_.size() and multiplier_ * data_.size() convert /
+   multiply exactly, so the reported average is the exact mean of the last min(n,W) truncated samples since the last
+   reset rounded ONCE: relative error <= 2^-53, independent of the length of the history *)
+Theorem C16_average_binary64_no_drift : forall W h (m : Z), (0 < W)%nat -> (W <= 64)%nat -> (0 < m <= 1000000)%Z ->
+  Forall (fun x => (Z.abs x <= 100000000)%Z) (since_reset h []) ->
+  let s := fold_left i_step h (o_init W) in
+  let L := lastn W (since_reset h []) in
+  L <> [] ->
+  o_average B64Ops m s = Some (rnd64 (zmean m L)) /\
+  (Rabs (rnd64 (zmean m L) - zmean m L) <= u64 * Rabs (zmean m L))%R.
+Proof. exact average_b64_history. Qed.
+Print Assumptions C16_average_binary64_no_drift.
+
+(* the same about the OnlineAverage code as written (gen/SrcStats.v run at the binary64 dictionary), with hypotheses on
+   the inputs only: precision in [1e-6, 1], window 1..64, |value * multiplier| <= 1e8 for every value fed *)
+Theorem C16_average_binary64_code : forall (p : R) W (ops : list (oop R)), (0 < W)%nat -> (W <= 64)%nat ->
+  (2 / 2000001 <= p <= 1)%R ->
+  let mult := o_multiplier B64Ops p in
+  values_bounded mult ops ->
+  let c := fold_left (src_avg_step B64Ops) ops (src_avg_ctor2 B64Ops p (Z.of_nat W)) in
+  let L := lastn W (since_reset (map (trunc_op B64Ops mult) ops) []) in
+  (1 <= mult <= 1000000)%Z /\
+  (L = [] -> src_avg_getAverage c = None) /\
+  (L <> [] -> src_avg_getAverage c = Some (rnd64 (zmean mult L)) /\
+              (Rabs (rnd64 (zmean mult L) - zmean mult L) <= u64 * Rabs (zmean mult L))%R).
+Proof. exact average_b64_code. Qed.
+Print Assumptions C16_average_binary64_code.
+
 (* ---- the defects that were repaired (models of the code before the fix:, kept as documentation) ---- *)
 (* reset() kept index_: W = 3, history 100, reset, 1, 2, 3, 10 -> window {1,3,10}, not {2,3,10} *)
 Theorem C16_reset_keeps_index_refuted :
@@ -242,3 +290,13 @@ Example C16_ex_source_ring :
   let c := fold_left src_ring_step [RAppend 1; RAppend 2; RAppend 3; RAppend 4]%Z (src_ring_ctor 3%Z) in
   map (fun k => src_ring_get c k) [0; 1; 2]%Z = [Some 4; Some 3; Some 2]%Z.
 Proof. vm_compute. reflexivity. Qed.
+
+(* the hypotheses of the binary64 theorems are satisfiable: precision 1, window 2, samples 3 and 4 *)
+Example C16_ex_binary64 :
+  let mult := o_multiplier B64Ops 1%R in
+  (2 / 2000001 <= 1 <= 1)%R /\ values_bounded mult [OUpdate 3%R; OUpdate 4%R].
+Proof.
+  cbv zeta. assert (H : (2 / 2000001 <= 1 <= 1)%R) by lra. split; [exact H|].
+  pose proof (multiplier_b64 1%R H) as [L U]. apply IZR_le in L, U.
+  repeat constructor; rewrite Rabs_pos_eq; nra.
+Qed.
